@@ -319,6 +319,9 @@ void reb_simulation_update_tree(struct reb_simulation* const r){
 		reb_simulation_add(r, reinsert[i]);
 	}
 	free(reinsert);
+    if (r->N_active > (int)r->N){
+        r->N_active = r->N; // Particles flagged for removal have been dropped from the array.
+    }
     r->tree_needs_update= 0;
 }
 static void reb_tree_delete_cell(struct reb_treecell* node){
